@@ -799,6 +799,173 @@ func explicitPrimAll(der []byte) []mutant {
 	return out
 }
 
+// explicitIDs: the identifier octets (tag numbers below 31) of the wrappers that the EXPLICIT fields of the
+// type, and the top-level parameters, ask for.
+func explicitIDs(t *asn1gen.Ty, top string, m map[byte]bool) {
+	one := func(tag string) {
+		if !hasPart(tag, "explicit") {
+			return
+		}
+		no := -1
+		for _, p := range strings.Split(tag, ",") {
+			if strings.HasPrefix(p, "tag:") {
+				fmt.Sscanf(p[4:], "%d", &no)
+			}
+		}
+		if no < 0 || no > 30 {
+			return
+		}
+		cl := byte(0x80)
+		if hasPart(tag, "application") {
+			cl = 0x40
+		} else if hasPart(tag, "private") {
+			cl = 0xc0
+		}
+		m[cl|0x20|byte(no)] = true
+	}
+	one(top)
+	if t.Elem != nil {
+		explicitIDs(t.Elem, "", m)
+	}
+	for _, f := range t.Fields {
+		explicitIDs(f.T, f.Tag, m)
+	}
+}
+
+// endZero: a ZERO-LENGTH element as the LAST thing of its enclosing buffer, at every position a decoder can
+// come to read a header at.  For every element list of the DER (the top-level input, the content of every
+// constructed element) and every position p in it (also the one after the last element, where omitted
+// trailing fields would stand): the elements from p on are dropped and one zero-length element is put in
+// their place - with the identifier of the element that stood there, of the one after it, of each EXPLICIT
+// wrapper the type asks for, and OCTET STRING / NULL / UTF8String / SEQUENCE (what a following field could
+// be).  Control rows ("end-zero-ctl"): the same zero-length element followed by the original elements from
+// p on or, at the end of a list, by a NULL; at top level this is trailing data.  Only `ctl` of the
+// candidates of a position get a control row, and `fixed` of the four universal ones are used (rotating with rot).  No outcome is assumed for any of them: the oracles
+// decide.
+func endZero(der []byte, ids map[byte]bool, ctl, rot, fixed int) []mutant {
+	var out []mutant
+	parse := func() []*node {
+		roots, ok := parseNodes(der, 0)
+		if !ok {
+			return nil
+		}
+		top := &node{children: roots}
+		ls := []*node{top}
+		var all []*node
+		flatten(roots, &all)
+		for _, n := range all {
+			if len(n.children) > 0 {
+				ls = append(ls, n)
+			}
+		}
+		return ls
+	}
+	ls := parse()
+	var idl []int
+	for b := range ids {
+		idl = append(idl, int(b))
+	}
+	sort.Ints(idl)
+	for li := range ls {
+		for p := 0; p <= len(ls[li].children); p++ {
+			if li == 0 && p > 0 && p == len(ls[li].children) {
+				continue // after the complete top-level value: plain trailing data
+			}
+			var zs [][]byte
+			addZ := func(tag []byte) {
+				for _, z := range zs {
+					if bytes.Equal(z, tag) {
+						return
+					}
+				}
+				zs = append(zs, append([]byte{}, tag...))
+			}
+			if p < len(ls[li].children) {
+				addZ(ls[li].children[p].tag)
+			}
+			if p+1 < len(ls[li].children) {
+				addZ(ls[li].children[p+1].tag)
+			}
+			for _, b := range idl {
+				addZ([]byte{byte(b)})
+			}
+			for k := 0; k < fixed; k++ { // `fixed` of the four, rotating
+				addZ([]byte{[]byte{0x04, 0x05, 0x0c, 0x30}[(k+rot+p+li)%4]})
+			}
+			for zi, z := range zs {
+				for variant := 0; variant < 2; variant++ {
+					if variant == 1 && (zi+rot+p+li)%len(zs) >= ctl {
+						continue
+					}
+					cur := parse() // a fresh tree for every edit
+					l := cur[li]
+					zn := &node{tag: z, content: []byte{}}
+					tail := append([]*node{}, l.children[p:]...)
+					l.children = append(l.children[:p:p], zn)
+					class := "end-zero"
+					if variant == 1 {
+						class = "end-zero-ctl"
+						if len(tail) == 0 {
+							tail = []*node{{tag: []byte{0x05}, content: []byte{}}}
+						}
+						l.children = append(l.children, tail...)
+					}
+					out = append(out, mutant{serialize(cur[0].children), class})
+				}
+			}
+		}
+	}
+	return out
+}
+
+type topTy struct {
+	top string
+	t   *asn1gen.Ty
+}
+
+// endTypes: EXPLICIT-tagged fields of every flavour (required, OPTIONAL, DEFAULT, application class; int, Flag,
+// RawValue, OCTET STRING, struct) alone / first / last / in the middle of a struct, and top-level
+// `explicit,tag:N` parameters: the targets of the endZero sweep.
+func endTypes() []topTy {
+	var out []topTy
+	lf := func(k string) *asn1gen.Ty { return &asn1gen.Ty{Kind: k} }
+	stn := func(fs ...asn1gen.Field) *asn1gen.Ty { return &asn1gen.Ty{Kind: "struct", Fields: fs} }
+	fd := func(tag string, t *asn1gen.Ty) asn1gen.Field { return asn1gen.Field{Tag: tag, T: t} }
+	n := 0
+	for _, k := range []string{"int", "flag", "rawvalue", "octets", "struct"} {
+		mk := func() *asn1gen.Ty {
+			if k == "struct" {
+				return stn(fd("", lf("int")))
+			}
+			return lf(k)
+		}
+		flav := []string{"explicit,tag:0", "explicit,optional,tag:0", "explicit,optional,application,tag:1"}
+		if k == "int" {
+			flav = append(flav, "explicit,optional,default:7,tag:1")
+		}
+		for _, fl := range flav {
+			shapes := []*asn1gen.Ty{
+				stn(fd(fl, mk())),
+				stn(fd(fl, mk()), fd("", lf([]string{"octets", "rawvalue", "string", "any"}[n%4]))),
+				stn(fd("", lf("int")), fd(fl, mk())),
+				stn(fd("", lf("int")), fd(fl, mk()), fd("optional", lf([]string{"octets", "bool", "rawvalue"}[n%3]))),
+			}
+			// quick tier: one of the four shapes per flavour and kind, rotating; thorough: all
+			for k := 0; k < tier(1, 4); k++ {
+				out = append(out, topTy{"", shapes[(n+k)%4]})
+			}
+			n++
+		}
+	}
+	out = append(out,
+		topTy{"explicit,tag:0", lf("flag")}, topTy{"explicit,tag:0", lf("int")}, topTy{"explicit,optional,tag:0", lf("int")},
+		topTy{"explicit,application,tag:1", lf("rawvalue")}, topTy{"explicit,tag:2", lf("octets")},
+		topTy{"explicit,tag:3", stn(fd("explicit,optional,tag:0", lf("int")), fd("", lf("octets")))},
+		topTy{"", &asn1gen.Ty{Kind: "seqof", Elem: stn(fd("", lf("int")), fd("explicit,tag:0", lf("flag")))}},
+		topTy{"", stn(fd("explicit,tag:5", stn(fd("explicit,optional,default:7,tag:0", lf("int")), fd("", lf("rawvalue")))))})
+	return out
+}
+
 // focusedTypes: each relaxable leaf kind at each structural position (top level, struct field,
 // nested struct, sequence element, sequence of structs, struct holding a sequence, SET OF,
 // explicitly tagged field, field tagged lax inside a strict parent).
@@ -1017,6 +1184,9 @@ func unstructured(class string) bool {
 	switch class {
 	case "bitflip", "bytepoke", "random", "truncate", "trailing", "struct-edit", "len-off", "tagbits", "base-not-strict":
 		return true
+	case "end-zero", "end-zero-ctl":
+		// a structural edit (elements dropped, a zero-length element put in their place): like struct-edit
+		return true
 	case "explicit-prim", "implicit-cons":
 		// these make a decoder read an element as (or no longer as) the content of another field: the
 		// bytes of an OCTET STRING may come to be read as an implicitly tagged PrintableString, etc.
@@ -1052,12 +1222,14 @@ func main() {
 
 	focus := focusedTypes()
 	nb := lib.Count(60, 600) // boundary stream: lengths where the DER length field grows / has 0xff on top
-	for i := 0; i < n+len(focus)+nb; i++ {
+	ends := endTypes() // end stream: zero-length elements that end their enclosing buffer, at explicit positions
+	for i := 0; i < n+len(focus)+nb+len(ends); i++ {
 		t := g.Type(1 + r.Intn(4))
 		if i%4 == 0 {
 			t = g.Struct(2 + r.Intn(3))
 		}
-		g.Boundary = i >= n+len(focus)
+		g.Boundary = i >= n+len(focus) && i < n+len(focus)+nb
+		ending := i >= n+len(focus)+nb
 		if g.Boundary {
 			oct, str, in := &asn1gen.Ty{Kind: "octets"}, &asn1gen.Ty{Kind: "string"}, &asn1gen.Ty{Kind: "int"}
 			fl := func(ts ...*asn1gen.Ty) *asn1gen.Ty {
@@ -1075,7 +1247,9 @@ func main() {
 			t = focus[i]
 		}
 		top := ""
-		if r.Intn(4) == 0 && !focused {
+		if ending {
+			t, top = ends[i-n-len(focus)-nb].t, ends[i-n-len(focus)-nb].top
+		} else if r.Intn(4) == 0 && !focused {
 			// top-level parameters; "lax" is added by the harness itself for the lax run
 			var ps []string
 			for _, p := range strings.Split(g.Tag(t, false), ",") {
@@ -1147,7 +1321,19 @@ func main() {
 					inputs = append(inputs, wideAll(mf.out, i*sweep+k, implicitInts, intOrAny && kinds["any"])...)
 				}
 			}
-			inputs = append(inputs, mutate(g, mf.out)...)
+			ids := map[byte]bool{}
+			explicitIDs(t, top, ids)
+			if ending {
+				inputs = append(inputs, endZero(mf.out, ids, tier(1, 3), i+r.Intn(4), tier(2, 4))...)
+			} else if ez := endZero(mf.out, ids, 1, i, 4); len(ez) > 0 && (len(ids) > 0 || r.Intn(3) == 0) {
+				// elsewhere: a few of them, more where the type has EXPLICIT fields
+				for k := 0; k < 1+minI(len(ids), 1); k++ {
+					inputs = append(inputs, ez[r.Intn(len(ez))])
+				}
+			}
+			if !ending {
+				inputs = append(inputs, mutate(g, mf.out)...)
+			}
 		}
 		if mf.class != "ok" || r.Intn(3) == 0 {
 			rb := make([]byte, r.Intn(20))
@@ -1339,6 +1525,21 @@ func roundTrips(t *asn1gen.Ty, tag string) bool {
 		}
 	}
 	return true
+}
+
+// tier: a size that depends on the tier only (not on -n)
+func tier(quick, thorough int) int {
+	if lib.Tier() == "thorough" {
+		return thorough
+	}
+	return quick
+}
+
+func minI(a, b int) int {
+	if a < b {
+		return a
+	}
+	return b
 }
 
 func hasPart(tag, part string) bool {
